@@ -52,6 +52,11 @@ thread_local! {
     static STATS: RefCell<SchedStats> = RefCell::new(SchedStats::default());
 }
 
+/// scheduling decisions taken so far in the execution running on this OS thread
+pub fn decisions_so_far() -> u64 {
+    STATS.with(|s| s.borrow().decisions)
+}
+
 pub fn take_stats() -> SchedStats {
     STATS.with(|s| std::mem::take(&mut *s.borrow_mut()))
 }
